@@ -357,6 +357,24 @@ def gen(rng, tier):
                     batch = []
         if batch:
             cases.append(batch)
+    # 6b. exhaustive continuations inside a context (comment, PI, declaration, attribute list, reference, end tag)
+    ctxs = [(b"<r><!--", b"<b/></r>", b"->x<!", 5 if quick else 7),
+            (b"<r><?", b"<b/></r>", b"?>a <", 5 if quick else 7),
+            (b"<!", b"<r/>", b"D<> [-", 5 if quick else 6),
+            (b"<a ", b"x</a>", b"b=\"' />&;", 4 if quick else 5),
+            (b"<r>&", b";z</r>", b"#x41;a-", 4 if quick else 6),
+            (b"<r a='&", b";'/>", b"#x41;a-", 3 if quick else 5),
+            (b"<r><a>", b"</r>", b"</a>r ", 5 if quick else 7)]
+    for pre, post, alpha, maxlen in ctxs:
+        batch = []
+        for L in range(0, maxlen + 1):
+            for t in itertools.product(alpha, repeat=L):
+                batch.append(dec(pre + bytes(t) + post))
+                if len(batch) == 500:
+                    cases.append(batch)
+                    batch = []
+        if batch:
+            cases.append(batch)
     # 7. DOM trees: encode and decode(encode)
     for i in range(500 if quick else 12000):
         depth = rng.choice([0, 1, 2, 3, 4, 5, 8, 11])
@@ -424,9 +442,11 @@ def distribution(cases):
 
 
 EXHAUSTIVE = {"quick": "all strings of length <= 5 over {< > / a space = \"} and over {< > / a ! - ?}, length <= 4 over {< > / a & # ; x 1}, "
-                       "length <= 6 over {< > / a b} through Xml::decode",
+                       "length <= 6 over {< > / a b} through Xml::decode; all continuations of length <= 5 over small alphabets inside a comment, a PI, "
+                       "a <! declaration, an open element, (<= 4) an attribute list, a reference",
               "thorough": "all strings of length <= 7 over {< > / a space = \"}, <= 6 over {< > / a ! - ?}, <= 5 over {< > / a & # ; x 1}, "
-                          "<= 8 over {< > / a b} through Xml::decode"}
+                          "<= 8 over {< > / a b} through Xml::decode; continuations of length <= 5..7 inside comment / PI / declaration / attribute list / "
+                          "reference / open element contexts"}
 
 
 # ------------------------------------------------------------------ independent references
@@ -578,10 +598,85 @@ def reference(line):
     return None
 
 
+def oracle(case, impl, model, crash):
+    """property oracle judged on the implementation's behaviour alone (DESIGN 1.3)"""
+    if crash:
+        return True, "Xml::decode / encode did not terminate normally (memory error or abort): %s" % crash
+    outs = [o for o in impl if o != "case"]
+    for l, o in zip(case, outs):
+        if "!" in o:
+            return True, "a child's parent() is not the element that contains it (flag '!' in the dump of: %s)" % l[:80]
+    for l, o in zip(case, outs):
+        if l.startswith("rt "):
+            exp = reference(l)
+            if exp is not None and o != exp:
+                return True, ("decode(encode(t)) is not t up to merging adjacent text and dropping blank text "
+                              "(expected %s, got %s)" % (exp[:120], o[:120]))
+    return False, ("the implementation no longer behaves as the transcription the theorems are about (outputs differ), but the "
+                   "differing outputs do not by themselves contradict the property's clauses")
+
+
+def simplify_line(line):
+    """byte-level shrinking candidates for one op line (largest cuts first)"""
+    t = line.split()
+    if t[0] != "dec" or len(t) != 2:
+        return
+    b = unhex(t[1])
+    n = len(b)
+    k = n // 2
+    seen = 0
+    while k >= 1 and seen < 120:
+        for i in range(0, n, k):
+            cand = b[:i] + b[i + k:]
+            if len(cand) < n:
+                seen += 1
+                yield "dec " + hexs(cand)
+        k //= 2
+
+
 def extra(ctx):
-    """record how the implementation answered (share of non-null results etc.) — statistics only"""
+    """statistics only: how the implementation answered the generated `dec` inputs (share of non-null trees, sizes)"""
+    import subprocess
+    from lib import core
+    rng = ctx["rng"]
+    cases = gen(__import__("random").Random(ctx["seed"] * 1000003 + 7), ctx["tier"])
+    lines = [l for c in cases for l in c if l.startswith("dec ")][:60000]
+    out, crash, err = core.run_impl(ctx["exe"], ["case 0"] + lines, timeout=600)
+    res = {"null": 0, "tree": 0, "tree_with_children": 0, "tree_with_text": 0, "tree_with_attrs": 0, "max_children_dump_len": 0}
+    for o in out[1:]:
+        if o == "null":
+            res["null"] += 1
+        elif o.startswith("E"):
+            res["tree"] += 1
+            if "+" in o:
+                res["tree_with_children"] += 1
+            if "T" in o:
+                res["tree_with_text"] += 1
+            if "=" in o:
+                res["tree_with_attrs"] += 1
+            res["max_children_dump_len"] = max(res["max_children_dump_len"], len(o))
+    ctx["stats"]["impl_answers_on_dec_sample"] = res
     return []
 
 
-LEVEL_TEXT = "(filled in below)"
-LEVEL_NOTE = "(filled in below)"
+LEVEL_TEXT = ("Proved in Lean 4 about the executable transcription of Xml::decode / XmlCodec::encode that is run against the real "
+              "library on every check: (1) xml_decode_safe — for every byte string the 20-state decoder never pops the seeded root and never "
+              "reads top() of an empty stack (invariant over state x stack depth), and the character-reference buffer char bytes[5] always "
+              "suffices (ref_buffer_fits, every int); termination is structural (one step per input byte); (2) xml_parent_links — in every "
+              "returned tree, at every depth, each child's parent pointer is the identity of the element containing it; "
+              "(3) xml_roundtrip_compact — for EVERY element tree (any depth/fan-out) whose tag and attribute names pass the decoder's own "
+              "name tests, with arbitrary NUL-free attribute values and text, decode(encode(t,false)) is a tree whose erasure equals "
+              "normalize(t) (merge adjacent text, drop whitespace-only text; normalize is an independent specification, proved equal to what "
+              "the decoder rebuilds); (4) xml_roundtrip_indented — the same for encode(t,true) when text occurs only as a sole child; "
+              "(5) escape_unescape — reference expansion inverts escape on all NUL-free bytes incl. & < > ' \" and bytes >= 0x80, in text and "
+              "in attribute values; (6) xml_close_underflow_counterexample — without the end-tag guard of fix 836cb23 the model faults on </>. "
+              "Tie to the code: correspondence check K (model driver vs real library under ASan/UBSan/LSan on generated documents, "
+              "mutations, truncations, exhaustive short strings, DOM trees to depth 12) plus independent python oracles (expat, "
+              "normalisation, compact serialisation).")
+LEVEL_NOTE = ("Trusted: Lean kernel; the reading that produced the transcription, validated by K on the generated inputs only; the harness. "
+              "Modelled, not proved: libc strtoul, wrap-around of myatoi's signed overflow, String/Map/Array/Stack primitives (ASSUMPTIONS). "
+              "The DOM is modelled as a tree whose nodes carry an object identity and an explicit parent field (no shared sub-objects); that "
+              "the real decoder never shares a node between two parents, and that reference counting frees each node once, is observed by "
+              "K/ASan/LSan, not proved. Memory safety of the C++ beyond the modelled stack/buffer accesses (String growth, Array realloc) "
+              "is checked by the sanitizers on the explored inputs only. Round-trip theorems cover names in the decoder's accepted class "
+              "(a superset of XML names), NUL-free strings; identity of object ids is erased in their conclusion.")
